@@ -84,6 +84,9 @@ def gen_inputs(ctx, rnd):
     ex = [''.join(t) for k in range(0, n + 1) for t in itertools.product(ALPHA, repeat=k)]
     if ctx.quick():
         ex = [x for x in ex if len(x) <= 3] + rnd.sample(ex, 260)
+    else:
+        two = [''.join(t) for k in range(0, 3) for t in itertools.product(ALPHA, repeat=k)]
+        ex = two + rnd.sample(ex, 1500)           # all sequences up to two tokens, a sample of the three-token ones
     special = ['#', '# ', '#define', '#define ', '#define A', '#define A 1', '#define A 1\nA', '# define A 1\nA A\n#define B\nB\n', '#define A B C\n A;A \n#define Z\n',
                '/*', '/* a', '/**/', '/***/', '/* * / */x', 'a/*b*/c', '"/*"', '"a\\"b"', "'\\''", 'x\\\ny', 'x\\  \ny', 'x\\ y', 'a z zz aa b', 'z y x w', 'aa ab a b',
                'int a = "xy"; /* c */ b \\\n c\n', '"" "a" "" "bc"', 'L"ab" "c"', 'a.b->c <<= 2 ... 1.5e3f 0x1FuL 07 \'\\n\'', 'a\x80\xffb', '\t\x0b\x0c a']
